@@ -51,9 +51,10 @@ CHECKS["C16"] = {
 CHECKS["C17"] = {
     "text": "For all six Newton variants, for every user function: &self receiver over Freeze state without unsafe (configuration and guess cannot change); "
             "no hidden state read; the only loop is for _ in 0..self.max_iter and every reachable loop is a bounded for with an acyclic call graph; "
-            "closure call sites per iteration counted; the only Ok is inside the loop behind the stopping test and carries the iterate; the fall-through "
+            "closure call sites per iteration counted; the only Ok is inside the loop behind the stopping test and carries the iterate; success is decided on the size of the step applied in "
+            "that iteration (|dx| or ||dx||_inf <= tol) in every variant — a residual test bounds the distance to the root only by tol/|f'| (finding 24); the fall-through "
             "is Err(current); the step is f/f' (central difference with self.delta) resp. the solve_basic solution with the Jacobian at current."
-            " The residual norm of the system variants (norm_inf) ignores no component, NaN included.",
+            " The norm of the system variants (norm_inf) ignores no component, NaN included.",
     "design_ref": "DESIGN.md §3 C17",
     "note": "Not decided: Ok => within O(tol) of the root (a theorem about Newton's method and floating point). Assumes a deterministic user closure.",
     "technique": TECH + "receiver/Freeze typing proof, loop-shape and call-graph termination analysis, control-dependence of Ok on the stopping test",
@@ -114,32 +115,35 @@ CHECKS["C07"] = {
 }
 
 CHECKS["C08"] = {
-    "text": "For all four Krylov solvers and every input: every return Ok is control-dependent on `R <= tol` (tol unmodified) with R defined as the norm of a tracked "
-            "vector over normb; that vector is, as a symbolic linear combination, exactly the residual of the x being returned (pending x updates applied — BiCGSTAB's half step); "
-            "within one iteration x receives sum c_i P_i iff r receives -sum c_i A P_i (r + A x is preserved: checked per first/later-iteration case with coefficients compared "
-            "as polynomials over Q; QMR's s = A d is discovered as an inductive image pair); r starts as b - A x; the loop is budgeted by max_iter and Ok carries 0 or the counter; "
+    "text": "For all four Krylov solvers and every input: every `return Ok(..)` inside the main loop is control-dependent on `||b - A*x|| / normb <= tol` with the residual "
+            "recomputed from x itself after the last write to x on that path (`NaN <= tol` is false, so a non-finite x is never reported as solved; only positive `<=`/`<` atoms count, "
+            "so a NaN-unsafe early-continue spelling is reported); the Ok(0) before the loop is decided on the freshly computed initial residual; the divisor of every normalisation is ||b|| "
+            "(or the norm of b's preconditioned copy) with the zero-norm repair; r starts as b - A x; the loop is budgeted by max_iter and Ok carries 0 or the counter; "
             "x is written only inside the loop; every other exit is Err.",
     "design_ref": "DESIGN.md §3 C08, Appendix B",
-    "note": "An inductive invariant in exact arithmetic. Not decided: finiteness of x at success and the floating-point drift between the recurrence residual and the true residual.",
-    "technique": TECH + "control-dependence of Ok on the tolerance test + dataflow over a linear-combination abstract domain (relational invariant r + A*x) with a first-iteration case split",
+    "note": "Findings 23 (fixed in /repo 0036606): the solvers decided success on the recurrence residual alone. Since that repair the consistency of the recurrences is no longer a condition of "
+            "this property (a wrong recurrence cannot produce a false Ok) and is decided under C09. Not decided: the rounding error of the one recomputation (eps*||A||*||x||).",
+    "technique": TECH + "control-dependence (dominating positive comparison atoms) of every success exit on the recomputed residual, def-use ordering against writes to x, normaliser def-guard-use",
 }
 CHECKS["C09"] = {
-    "text": "ONLY the degenerate-start clause of the property: in each of the four solvers the divisor of every residual normalisation passes `if n == 0.0 { n = 1.0 }` "
-            "after its definition and before its first use, and before the loop the initial residual (or its identity-preconditioned copy) is tested against tol with "
-            "Ok(0) returned and x untouched — so an exact initial guess and a zero right-hand side with zero guess are accepted with x finite. "
-            "Two necessary conditions of the convergence clause are decided as well: every failure exit inside the loop is an exact zero test of a recurrence scalar (no absolute "
-            "threshold, which would report breakdown on a small-scale right-hand side), and the residual bookkeeping of C08 (r tracks b - A x, the tested vector is the residual of the "
-            "returned x) holds at the same solvers (imported through the dependency closure).",
+    "text": "Necessary conditions of convergence plus the degenerate-start clause. (a) start-up: the divisor of every residual normalisation passes `if n == 0.0 { n = 1.0 }` before its first use, "
+            "and before the loop the initial residual (or its identity-preconditioned copy) is tested against tol with Ok(0) returned and x untouched. (b) the recurrences are those of a residual that "
+            "tracks the iterate: within one iteration x receives sum c_i P_i iff r receives -sum c_i A P_i (r + A x preserved, per first/later-iteration case, coefficients compared as polynomials over Q; "
+            "QMR's s = A d discovered as an inductive image pair), and each in-loop success exit tests the residual of the x it returns. (c) every failure exit inside the loop is an exact zero test "
+            "(no absolute threshold). (d) breakdown-freedom: every inner product evaluated in the loop is of a vector with itself (or, in CG, of p with A p — positive on the SPD class) and no norm of a "
+            "left (A^T-generated) Lanczos vector is used: an inner product of two different vectors can vanish while the residual has not, and the recurrence then divides by it or gives up. "
+            "CG has no such scalar; BiCG, BiCGSTAB and QMR have eight between them, each demonstrated on a strictly diagonally dominant system of order <= 4 (open findings, findings/c09-breakdown).",
     "design_ref": "DESIGN.md §3 C09, §7, §12",
-    "note": "The bulk of C09 — convergence within O(n) iterations on SPD / diagonally dominant systems and agreement with the direct solution to tol*cond(A) — quantifies over values of "
-            "Krylov recurrences and is NOT decided (not applicable to static analysis); no claim is made for it.",
-    "technique": TECH + "def-guard-use pattern on the norm divisor, sibling start-up agreement (only the degenerate-start clause; convergence is not applicable)",
+    "note": "NOT decided (not applicable to static analysis): the rate of convergence (O(n) iterations) and agreement with the direct solution to tol*cond(A). The eight open findings are inherent to "
+            "Lanczos-type methods without look-ahead/restart and are not a small patch; they are listed by exact key in known_findings.txt, so a ninth indefinite scalar is still reported.",
+    "technique": TECH + "dataflow over a linear-combination abstract domain (values of the operands of every inner product / norm at evaluation time), def-guard-use pattern on the norm divisor, sibling start-up agreement",
 }
 
 CHECKS["C18"] = {
     "text": "For every m and n (including m < n and m > n), real and complex: the Jacobian is allocated m x n in that order; column i is stored for i over the full 0..n; "
             "the callee's range check bounds the column index by cols (the set_col defect made n > m panic); each iteration perturbs coordinate i by delta, evaluates, and "
-            "restores the same coordinate by the same delta; the stored column is (f_new - f)/delta with f evaluated once at the unperturbed point; both siblings satisfy the same instances.",
+            "restores the same coordinate EXACTLY — by assigning back a copy saved before the perturbation (or working on a fresh copy of the point), not by subtracting the step, which does not "
+            "give back x when x + delta rounds (finding 22); the stored column is (f_new - f)/delta with f evaluated once at the unperturbed point; both siblings satisfy the same instances.",
     "design_ref": "DESIGN.md §3 C18",
     "note": "Exactness for affine maps on dyadic data and O(delta) accuracy are numerical and not decided statically.",
     "technique": TECH + "shape ties, perturb/restore pairing, quotient polarity, callee kind signature (index kinds)",
